@@ -115,6 +115,7 @@ type checker struct {
 	kfPrinted map[string]bool
 	seenSig   map[string]bool
 	inconclusive []string
+	incidents    []string // environment trouble around a run that is clean when re-executed alone (reported, not a verdict)
 	raceCrashMine bool // set while handling a crash shown to need the concurrent schedule
 }
 
@@ -416,6 +417,12 @@ func (c *checker) crashViolation(tr *Trace, cv *childVerdict) *Violation {
 		if or&opOracle(s.Op) != 0 || (isSeqOp(s.Op) && or&oAbandon != 0) {
 			mine = true
 		}
+	}
+	if strings.Contains(cv.stderr, "out of memory") || strings.Contains(cv.stderr, "cannot allocate memory") {
+		// the machine, not the library: never a verdict
+		c.broken = true
+		c.notes = append(c.notes, "a run died for lack of memory (environment): "+tail(cv.stderr, 300))
+		return nil
 	}
 	if !strings.Contains(cv.stderr, "Clement-Jean/go-art") && !strings.Contains(cv.stderr, "/repo/") && !c.cfg.crashIsMine {
 		// no library frame in the crash: the harness itself is at fault
@@ -768,6 +775,11 @@ func (c *checker) handleViolations(bin string, br *batchResult, extraEnv []strin
 			// suspected hang: the run alone, twice, each with a limit four orders of
 			// magnitude above a normal run; both must stall in the same operation
 			a := c.execChild(bin, tr, extraEnv, 60*time.Second)
+			if !a.timedOut && !a.crashed && a.Violation == nil {
+				// it was only slow where it ran (a loaded machine): alone it completes, clean
+				c.incidents = append(c.incidents, fmt.Sprintf("run %d tripped the worker's watchdog but completes normally and clean when re-executed alone", cd.run))
+				continue
+			}
 			b := c.execChild(bin, tr, extraEnv, 60*time.Second)
 			if a.timedOut && b.timedOut && a.lastStep == b.lastStep && a.inObs == b.inObs && a.lastStep >= 0 && a.lastStep < len(tr.Steps) {
 				st := tr.Steps[a.lastStep]
@@ -832,7 +844,7 @@ func (c *checker) handleViolations(bin string, br *batchResult, extraEnv []strin
 		if want == nil {
 			if cd.v == nil && !cv.crashed && !cv.timedOut {
 				// a worker died in this run but the run alone is clean: inconclusive, never silent
-				c.inconclusive = append(c.inconclusive, fmt.Sprintf("run %d: a worker process died during this run, the run re-executed alone is clean", cd.run))
+				c.incidents = append(c.incidents, fmt.Sprintf("run %d: a worker process died during this run; the run re-executed alone completes normally and clean", cd.run))
 				continue
 			}
 			if cv.crashed && cd.v == nil {
@@ -1214,6 +1226,15 @@ func checkMain(args []string) int {
 	}
 	for _, n := range c.inconclusive {
 		fmt.Fprintln(os.Stderr, "INCONCLUSIVE:", n)
+	}
+	for _, n := range c.incidents {
+		fmt.Fprintln(os.Stderr, "INCIDENT:", n)
+	}
+	if cov != nil {
+		cov["environment_incidents"] = len(c.incidents)
+		if len(c.incidents) > 0 {
+			cov["environment_incidents_detail"] = c.incidents
+		}
 	}
 	if cov != nil {
 		cov["inconclusive"] = len(c.inconclusive)
